@@ -86,6 +86,8 @@ func C04(c *Ctx) {
 	r.Rule("R04.2", "status writers: every write of a tx record (key TxInfoKey) stores either a freshly created record (in Begin / the record-absent branch) or a status produced by setFSM from a status that was loaded from the stored record on every path (Unmarshal / GetObject precedes setFSM); the executor's timeout write applies BEGIN_ROLLBACK only to ids read from the timeout list of the same height.")
 	r.Rule("R04.11", "the event table of its kind: a status code signed by the destination BitXHub (BxhProof.TxStatus) is translated into an FSM event through txStatus2EventM and through no other table, and only such codes are looked up there - also when the code reaches the lookup through a parameter of a helper (then the table and the code of every call site are paired). The two tables share their int32 keys (BEGIN_FAILURE = RECEIPT_SUCCESS = 1, BEGIN_ROLLBACK = RECEIPT_FAILURE = 2): a notice read through the receipt table drives BEGIN to SUCCESS by a transition the FSM table allows.")
 	c.c04EventTables()
+	r.Rule("R04.12", "a record begins once: TransactionManager.Begin writes the record of a request without reading it, so what keeps a final transaction final is the freshness test in front of it - in checkIBTP (or the helper that holds its index checks) every accepting path of the request branch passes either the index check of an ordered destination (checkIndex) or, for unordered destinations that take any index, the not-found edge of a lookup of the request's own id (IndexMapKey(ibtp.ID()), which ProcessIBTP records for every accepted request). Without the second a replayed request to an unordered service puts a SUCCESS / FAILURE record back to BEGIN (shared with C02 as R02.10).")
+	c.requestFreshness("R04.12")
 	r.Rule("R04.3", "a rejected receipt has no effect: in Report and BeginInterBitXHub every record write lies behind the no-error edge of setFSM.")
 	r.NotDecided = append(r.NotDecided, "reachability of each edge over histories; contents of inter-BitXHub proofs")
 	// clauses of the timeout bookkeeping that are necessary for "final statuses never change" and "a rejected receipt
@@ -407,4 +409,111 @@ func (c *Ctx) c04EventTables() {
 		}
 	}
 	r.Floor("R04.11", "event-table lookups", n, 4)
+}
+
+// requestFreshness: R04.12 = R02.10.
+func (c *Ctx) requestFreshness(rule string) {
+	r := c.R
+	chk := c.fn(rule, "internal/executor/contracts.(*InterchainManager).checkIBTP")
+	if chk == nil {
+		return
+	}
+	isIdLookup := func(call ssa.CallInstruction) bool {
+		if !core.IsStubCall("Get")(valueOf(call)) || len(call.Common().Args) == 0 {
+			return false
+		}
+		return core.Mentions(call.Common().Args[len(call.Common().Args)-1], func(w ssa.Value) bool {
+			cc, ok := w.(*ssa.Call)
+			return ok && strings.HasSuffix(core.CalleeName(cc), "contracts.IndexMapKey")
+		})
+	}
+	n := 0
+	for _, rf := range c.regionOf(chk, 2) {
+		f := rf.fn
+		hasIndex := false
+		for _, call := range core.Calls(f) {
+			if strings.HasSuffix(core.CalleeName(call), "contracts.checkIndex") {
+				hasIndex = true
+			}
+		}
+		if !hasIndex || f.Parent() != nil {
+			continue
+		}
+		// is this the function that decides requests? it tests the batch flag / calls checkIndex for requests
+		var lookups []*ssa.Call
+		for _, call := range core.Calls(f) {
+			if cl, ok := call.(*ssa.Call); ok && isIdLookup(call) {
+				lookups = append(lookups, cl)
+			}
+		}
+		if f == chk && len(lookups) == 0 {
+			// the lookup may sit in a helper of checkIBTP that also holds the index check: decided there
+			inHelper := false
+			for _, rf2 := range c.regionOf(chk, 2) {
+				if rf2.fn == chk || rf2.fn.Parent() != nil {
+					continue
+				}
+				hi, hl := false, false
+				for _, call := range core.Calls(rf2.fn) {
+					if strings.HasSuffix(core.CalleeName(call), "contracts.checkIndex") {
+						hi = true
+					}
+					if isIdLookup(call) {
+						hl = true
+					}
+				}
+				if hi && hl {
+					inHelper = true
+				}
+			}
+			if inHelper {
+				continue
+			}
+			n++
+			r.Bad(rule, "checkIBTP: a request to an unordered destination is accepted once", c.P.Pos(chk.Pos()), "requests to unordered (batch) destination services skip the index check and nothing else tests whether the request id was handled before: a replayed request begins its transaction again - Begin overwrites the record, a SUCCESS / FAILURE transaction is BEGIN again, for good")
+			continue
+		}
+		if len(lookups) == 0 {
+			continue
+		}
+		n++
+		// accepting returns of f lie behind checkIndex's success or the lookup's not-found edge
+		es := core.EdgeSet{}
+		for _, call := range core.Calls(f) {
+			if cl, ok := call.(*ssa.Call); ok && strings.HasSuffix(core.CalleeName(call), "contracts.checkIndex") {
+				for b, mm := range core.SuccessEdges(f, []core.GuardSite{{Call: cl, Conv: core.ConvErrNil, Idx: -1}}) {
+					for i := range mm {
+						es.Add(b, i)
+					}
+				}
+			}
+		}
+		for _, lk := range lookups {
+			es.Merge(condEdges(f, func(fc core.Fact, ifi *ssa.If) (bool, int) {
+				if fc.Kind != core.FBool {
+					return false, 0
+				}
+				ex, ok := core.Strip(fc.Subject).(*ssa.Extract)
+				if !ok || ex.Tuple != ssa.Value(lk) || ex.Index != 0 {
+					return false, 0
+				}
+				return true, 1 - holdsEdge(fc)
+			}))
+		}
+		rs := core.Reach([]core.Point{core.EntryOf(f)}, nil, core.CutOf(es))
+		bad := ""
+		if conv, idx, ok := core.ResultConv(f.Signature); ok {
+			for _, ret := range core.Returns(f) {
+				if rs.Has(ret) && len(ret.Results) > idx && core.MayBeSuccess(f, ret, idx, conv) {
+					// a direct return of checkIndex's own result is decided by that result
+					if cc, _ := core.CallOf(ret.Results[idx]); cc != nil && strings.HasSuffix(core.CalleeName(cc), "contracts.checkIndex") {
+						continue
+					}
+					bad = c.P.Pos(ret.Pos())
+				}
+			}
+		}
+		r.Check(bad == "", rule, shortFn(f)+": every accepting path passes the index check or the not-handled-before test", c.P.Pos(f.Pos()), "accepting returns lie behind checkIndex == nil or Get(IndexMapKey(id)) not found", "an accepting return ("+bad+") is reachable without either test: a request can be accepted twice")
+	}
+	r.Floor(rule, "functions deciding the freshness of a request", n, 1)
 }
